@@ -185,7 +185,7 @@ CLAUSES
 #define C02_VCP_CLAUSES \
 __CPROVER_ensures((__CPROVER_return_value == 0 && sig_len > 0) ==> \
 	(config->key != NULL && jwt->alg != JWT_ALG_NONE && \
-	 jwt->alg == SPEC_PINNED_ALG(config->alg, 1, config->key->alg)))
+	 SPEC_IS_PINNED(jwt->alg, config->alg, 1, config->key->alg)))
 /* C03: unsigned tokens pass only when neither key nor algorithm is configured */
 #define C03_VCP_CLAUSES \
 __CPROVER_ensures((__CPROVER_return_value == 0 && sig_len == 0) ==> \
@@ -238,7 +238,7 @@ __CPROVER_ensures((VC_ACCEPTED(jwt) && VC_SIGNED(token, payload_len)) ==> ( \
 	  g_ver_family == (int)SPEC_KTY_FOR(jwt->alg)))))
 #define C02_VC_CLAUSES \
 __CPROVER_ensures((VC_ACCEPTED(jwt) && VC_SIGNED(token, payload_len)) ==> ( \
-	config->key != NULL && jwt->alg != JWT_ALG_NONE && jwt->alg == SPEC_PINNED_ALG(config->alg, 1, config->key->alg) && \
+	config->key != NULL && jwt->alg != JWT_ALG_NONE && SPEC_IS_PINNED(jwt->alg, config->alg, 1, config->key->alg) && \
 	jwt->key->kty == SPEC_KTY_FOR(jwt->alg)))
 #define C03_VC_CLAUSES \
 __CPROVER_ensures((VC_ACCEPTED(jwt) && !VC_SIGNED(token, payload_len)) ==> \
